@@ -24,7 +24,9 @@ theorem code_between_vectors_general (a b : V3 ℝ) (ha : V3.dot a a = 1) (hb : 
     rfl
   exact ⟨Quat.betweenVectors a b, Trace.C15.t_q_between_vectors_general a b h1 h2, C15.betweenVectors_general a b ha hb hc hbr⟩
 
-/-- on the path where the first comparison (`a.b` approximately 1) is true the identity is returned -/
+/-- the kernel of the path on which the first comparison (`a.b` approximately 1) is recorded as true returns the identity (the
+equality holds for every input: the kernel is a closed term and `h1` is logically unused; that this path is the one taken
+exactly when the comparison is true is `q_between_vectors_same_consistent`, `E2E/C15g.lean`) -/
 theorem code_between_vectors_same (a b : V3 ℝ) (h1 : ulpsEqD (V3.dot a b) 1 = true) :
     t_q_between_vectors_same (envL (a.toList ++ b.toList)) = .okG (Quat.one : Quat ℝ).toList [.ulps (V3.dot a b) 1 Trace.C15.eps52 4 true] := by
   have hbr : Quat.betweenVectorsBranch a b = .same := by
@@ -33,8 +35,8 @@ theorem code_between_vectors_same (a b : V3 ℝ) (h1 : ulpsEqD (V3.dot a b) 1 = 
     rfl
   rw [Trace.C15.t_q_between_vectors_same a b h1, (C15.betweenVectors_same a b hbr).1]
 
-/-- 2-D: `Basis2::between_vectors(a, b)` as computed maps `a` onto `b`, is the rotation by the signed angle from `a` to `b`
-(clockwise when `b` is clockwise of `a`), and has determinant +1 -/
+/-- 2-D: `Basis2::between_vectors(a, b)` as computed maps `a` onto `b`, is the rotation by the signed angle `V2.angle a b` from `a` to `b`
+(the orientation reading -- clockwise when `b` is clockwise of `a` -- is not a conjunct of this statement), and has determinant +1 -/
 theorem code_between_vectors_2d (a b : V2 ℝ) (ha : V2.dot a a = 1) (hb : V2.dot b b = 1) :
     ∃ m : M2 ℝ, t_b2_between_vectors (envL (a.toList ++ b.toList)) = .okS m.toList ∧ m * a = b ∧
       m = M2.fromAngle (V2.angle a b) ∧ m.det = 1 := by
